@@ -67,6 +67,9 @@ func genBackends(rt *rapid.T, n int, label string, maxW int) []beSpec {
 	out := make([]beSpec, n)
 	for i, x := range idx {
 		out[i] = beSpec{Name: fmt.Sprintf("%s.be%d", label, x), Addr: addrPool[x/len(portPool)], Port: portPool[x%len(portPool)]}
+		if maxW < 0 { // weights are assigned by the caller
+			continue
+		}
 		if maxW > 0 {
 			out[i].Weight = rapid.IntRange(0, maxW).Draw(rt, fmt.Sprintf("%s.w%d", label, i))
 		} else {
